@@ -191,11 +191,31 @@ func (k kase) render() string {
 	case "clear":
 		fmt.Fprintf(&body, "\tvar x %s\n\tuse(x)\n\tclear(x)\n", k.A)
 	case "if-cond":
+		// the syntactic forms of the statement (with / without init statement and else branch), one per case
 		declY(&body)
-		fmt.Fprintf(&body, "\tif %s {\n\t}\n", y)
+		switch hashStr(k.A+"|"+k.B+"|"+k.BK) % 4 {
+		case 0:
+			fmt.Fprintf(&body, "\tif %s {\n\t}\n", y)
+		case 1:
+			fmt.Fprintf(&body, "\tif %s {\n\t} else {\n\t}\n", y)
+		case 2:
+			fmt.Fprintf(&body, "\tif q := 1; %s {\n\t\tuse(q)\n\t}\n", y)
+		default:
+			fmt.Fprintf(&body, "\tif q := 1; %s {\n\t\tuse(q)\n\t} else {\n\t\tuse(q)\n\t}\n", y)
+		}
 	case "for-cond":
+		// for cond / for init; cond; / for ; cond; post / for init; cond; post
 		declY(&body)
-		fmt.Fprintf(&body, "\tfor %s {\n\t\tbreak\n\t}\n", y)
+		switch hashStr(k.A+"|"+k.B+"|"+k.BK) % 4 {
+		case 0:
+			fmt.Fprintf(&body, "\tfor %s {\n\t\tbreak\n\t}\n", y)
+		case 1:
+			fmt.Fprintf(&body, "\tfor q := 0; %s; {\n\t\tuse(q)\n\t\tbreak\n\t}\n", y)
+		case 2:
+			fmt.Fprintf(&body, "\tq := 0\n\tfor ; %s; q++ {\n\t\tbreak\n\t}\n\tuse(q)\n", y)
+		default:
+			fmt.Fprintf(&body, "\tfor q := 0; %s; q++ {\n\t\tbreak\n\t}\n", y)
+		}
 	case "append":
 		declY(&body)
 		fmt.Fprintf(&body, "\tvar s []int\n\ts = append(s, %s)\n\tuse(s)\n", y)
